@@ -3,6 +3,7 @@ import QmcModel.Basic
 import QmcModel.Rand
 import QmcModel.Diagonal
 import QmcModel.HeatBath
+import QmcModel.Stepper
 open Qmc Qmc.Proto
 
 /-
@@ -16,6 +17,8 @@ C02 driver. Kinds (plus all of `Proto.diagStep`: msweep, hsweep, bw, mprob, hpro
                                               accepted tempering swap) | `N` (tempering step without swap)
                                               → two table tokens (A, B) per op
   genpair <ops>                               ops: `L`/`R` + generic op | `S` | `N` → two table tokens per op
+  energy <beta> <offset> <freq> <T> <ns>      ns = get_n() after each of the T time steps of a heat-bath run; the energy the
+                                              measuring loop (`measureLoop`, QmcModel/Stepper.lean) reports → ~energy | nan
 -/
 
 def parseEdges (s : String) : List (Nat × Nat × Rat) :=
@@ -84,6 +87,13 @@ def step (toks : List String) : String :=
       runPair (IsingS.step mkGen) (·.table)
         ({ a := { ham := ba, table := none }, ma := (), b := { ham := bb, table := none }, mb := () } :
           HBPair (IsingS (List TBond)) Unit) os
+    | ["energy", beta, off, freq, t, ns] =>
+      let nl := parseNats ns
+      let r := measureLoop (σ := Nat) (α := Unit) (· + 1) (fun i => nl.getD (i - 1) 0) (fun _ _ => ())
+        (parseNat t) (parseNat freq) 0 ()
+      match measureEnergy (parseRat beta) (parseRat off) r with
+      | some e => showApprox e
+      | none => "nan"
     | ["genpair", ops] =>
       let os := (ops.splitOn "+").filterMap (parsePairOp parseGenOp)
       runPair (GenS.step mkGen) (·.table)
